@@ -457,8 +457,11 @@ class Walker(object):
                     raise Unsupported('204000 without 204YYY')
                 self.assoc.pop()
             else:
-                if self.assoc:
-                    raise Unsupported('nested 204')
+                # nested 204: every following element is preceded by the associated fields of all
+                # operators in force; bit-wise that is one run of sum(YYY) bits, which the library
+                # returns as a single combined A-field (its documented flat layout)
+                if sum(self.assoc) + y > 64:
+                    raise Unsupported('associated fields wider than 64 bits')
                 self.assoc.append(y)
         elif op == 205:
             self._ctx = ('op205', d)
